@@ -1,10 +1,12 @@
 import OV.Model.C20Save
 import OV.Lemmas.C20Save
 import OV.Lemmas.C20Round
+import OV.Lemmas.C20Fault
+import OV.Lemmas.C20Sim
 /-!
 # C20 — saving with external data round-trips and never disturbs the in-memory model
 
-Property theorems only.  Model: `OV.Model.C20Save` (`runSave deep m dir name verbose fs k`: the real
+Property theorems only.  Model: `OV.Model.C20Save` (`runSave cfg m dir name verbose fs k`: the real
 `save_model_with_external_data(model, dir/name, verbose)` on file system `fs`, the `k`-th file-system call failing
 with `OSError`; `k = none`: no fault).  Every theorem quantifies over the fault plan `k`, so "for success and for
 every fault point" is the `∀ k`.  Helper lemmas: `OV.Lemmas.C20Save`.
@@ -16,13 +18,13 @@ open OV.C20
 `deep = true`: every graph) has no `const_value`, the call raises `ValueError` and the *whole state* is what it was:
 no file-system call was made (`calls = 0`, empty trace), no file changed, no tensor object or `const_value` touched —
 for every fault plan, path, verbosity and file system. -/
-theorem guard_first (deep : Bool) (m : Model) (dir name : String) (verbose : Bool) (fs : FS) (k : Option Nat)
+theorem guard_first (cfg : Cfg) (m : Model) (dir name : String) (verbose : Bool) (fs : FS) (k : Option Nat)
     (i : Nat) (n : String) (sub : Bool)
-    (hsig : m.sig[i]? = some (n, sub)) (hcv : m.cv[i]? = some none) (hscope : deep = true ∨ sub = false) :
-    (runSave deep m dir name verbose fs k).res = .error .valueError ∧
-    (runSave deep m dir name verbose fs k).st = init m fs k := by
-  have h := save_guard deep m.sig m.tnames dir name verbose (init m fs k)
-    (guardHits_hit deep m.sig m.cv i n sub hsig hcv hscope)
+    (hsig : m.sig[i]? = some (n, sub)) (hcv : m.cv[i]? = some none) (hscope : cfg.deep = true ∨ sub = false) :
+    (runSave cfg m dir name verbose fs k).res = .error .valueError ∧
+    (runSave cfg m dir name verbose fs k).st = init m fs k := by
+  have h := save_guard cfg m.sig m.tnames dir name (verbose && cfg.tqdm) (init m fs k)
+    (guardHits_hit cfg.deep m.sig m.cv i n sub hsig hcv hscope)
   unfold runSave
   rw [h]
   exact ⟨rfl, rfl⟩
@@ -36,7 +38,7 @@ the initializer is missing from the saved proto.  Witness replayed on the real c
 theorem guard_first_all_graphs_refuted :
     ¬ (∀ (m : Model) (dir name : String) (verbose : Bool) (fs : FS) (k : Option Nat) (i : Nat) (n : String) (sub : Bool),
         m.sig[i]? = some (n, sub) → m.cv[i]? = some none →
-        (runSave false m dir name verbose fs k).res = .error .valueError) := by
+        (runSave { deep := false } m dir name verbose fs k).res = .error .valueError) := by
   intro h
   have := h { sig := [("u", true)], cv := [none], heap := [] } "" "m" false [] none 0 "u" true rfl rfl
   revert this
@@ -44,7 +46,7 @@ theorem guard_first_all_graphs_refuted :
 
 /-- What the witness does instead: success, a data file and a model file without the initializer. -/
 theorem guard_first_all_graphs_witness :
-    let r := runSave false { sig := [("u", true)], cv := [none], heap := [] } "" "m" false [] none
+    let r := runSave { deep := false } { sig := [("u", true)], cv := [none], heap := [] } "" "m" false [] none
     r.res = .ok () ∧ r.st.fs = [("m.data", .data []), ("m", .proto [])] := by
   decide +kernel
 
@@ -52,16 +54,16 @@ theorem guard_first_all_graphs_witness :
 `model_unchanged_full_refuted`).  If no tensor object of the model is an `ExternalTensor` living in the destination
 data file `dir/name.data`, then after the call — successful or failed at *any* file-system call `k` — every
 initializer's `const_value` is the same object as before and every original tensor object is unchanged. -/
-theorem model_unchanged_partial (deep : Bool) (m : Model) (dir name : String) (verbose : Bool) (fs : FS) (k : Option Nat)
+theorem model_unchanged_partial (cfg : Cfg) (m : Model) (dir name : String) (verbose : Bool) (fs : FS) (k : Option Nat)
     (hdest : ∀ (id : Nat) (f : String) (o l : Nat) (v : Bool),
       m.heap[id]? = some (.ext f o l v) → f ≠ joinPath dir (name ++ ".data")) :
-    (runSave deep m dir name verbose fs k).model m = m := by
-  have hinv := inv_save deep m.sig m.tnames dir name verbose
+    (runSave cfg m dir name verbose fs k).model m = m := by
+  have hinv := inv_save cfg m.sig m.tnames dir name (verbose && cfg.tqdm)
     (stable_orig m.heap (joinPath dir (name ++ ".data")) (joinPath dir name) hdest) (init m fs k)
     (fun id t h => h)
-  have hcv := save_cv deep m.sig m.tnames dir name verbose (init m fs k)
+  have hcv := save_cv cfg m.sig m.tnames dir name (verbose && cfg.tqdm) (init m fs k)
   unfold runSave Result.model
-  cases hs : save deep m.sig m.tnames dir name verbose (init m fs k) with
+  cases hs : save cfg m.sig m.tnames dir name (verbose && cfg.tqdm) (init m fs k) with
   | mk r s' =>
     rw [hs] at hinv hcv
     simp only [] at hinv hcv ⊢
@@ -92,47 +94,111 @@ example : ∃ (m : Model), m.heap ≠ [] ∧ ∀ (id : Nat) (f : String) (o l : 
     | 1, h => simp at h; obtain ⟨rfl, _⟩ := h; decide
     | n + 2, h => simp at h⟩
 
+/-- **Model unchanged, every fault point, no hypothesis on where tensors live** — for the function *with the second
+guard* (`cfg.refuse = true`: a model one of whose initializers is an `ExternalTensor` stored in `dir/name.data` is refused
+before anything is written; proposed fix `proposed_fixes/ready/C20-D1.diff`).  For every model all of whose tensor objects
+belong to some initializer, every file system, path, verbosity and every fault plan `k` (and the fault-free run): after
+the call every `const_value` is the same object as before and every tensor object is unchanged.  Without the second
+guard the statement is false (`model_unchanged_full_refuted`). -/
+theorem model_unchanged (cfg : Cfg) (hr : cfg.refuse = true) (m : Model) (dir name : String) (verbose : Bool) (fs : FS)
+    (k : Option Nat) (howned : ∀ id, id < m.heap.length → some id ∈ m.cv) :
+    (runSave cfg m dir name verbose fs k).model m = m := by
+  by_cases hd : (destHits (joinPath dir (name ++ ".data")) m.heap m.cv).isEmpty = true
+  · apply model_unchanged_partial
+    intro id f o l v hobj hf
+    have hlt : id < m.heap.length := by
+      rcases Nat.lt_or_ge id m.heap.length with h | h
+      · exact h
+      · rw [List.getElem?_eq_none h] at hobj; cases hobj
+    have hmem := howned id hlt
+    have : id ∈ destHits (joinPath dir (name ++ ".data")) m.heap m.cv := by
+      unfold destHits
+      simp only [List.mem_filterMap]
+      exact ⟨some id, hmem, by simp [hobj, hf]⟩
+    rw [List.isEmpty_iff.mp hd] at this
+    cases this
+  · have hd' : (destHits (joinPath dir (name ++ ".data")) (init m fs k).heap (init m fs k).cv).isEmpty = false := by
+      simpa [init] using hd
+    obtain ⟨_, h2⟩ := save_guard2 cfg m.sig m.tnames dir name (verbose && cfg.tqdm) (init m fs k) hr hd'
+    unfold runSave Result.model
+    cases hs : save cfg m.sig m.tnames dir name (verbose && cfg.tqdm) (init m fs k) with
+    | mk r s' =>
+      rw [hs] at h2
+      simp only [] at h2 ⊢
+      subst h2
+      cases m with
+      | mk sig cv heap tnames => simp [init]
+
+/-- With the second guard the C20-D1 witness is refused and nothing is touched. -/
+example :
+    let m : Model := { sig := [("d", false)], cv := [some 0], heap := [.ext "m.data" 0 300 true] }
+    let fs : FS := [("m.data", .data (List.replicate 300 7))]
+    let r := runSave { refuse := true } m "" "m" false fs none
+    r.res = .error .valueError ∧ r.st.calls = 0 ∧ r.st.fs = fs ∧ r.model m = m := by
+  decide +kernel
+
+/-- **Tensor names** — with the name-restoring `finally` (`cfg.keepNames = true`; proposed fix
+`proposed_fixes/ready/C20-D4.diff`) the `name` of every tensor object after the call is what it was, for every model, file
+system and fault plan (onnx_ir's serializer renames each visited tensor after its initializer: `renameAll`). -/
+theorem tensor_names_restored (cfg : Cfg) (hkn : cfg.keepNames = true) (m : Model) (dir name : String) (verbose : Bool)
+    (fs : FS) (k : Option Nat) :
+    (runSave cfg m dir name verbose fs k).st.tn = m.tnames := by
+  have h := save_tn cfg hkn m.sig m.tnames dir name (verbose && cfg.tqdm) (init m fs k)
+  unfold runSave
+  cases hs : save cfg m.sig m.tnames dir name (verbose && cfg.tqdm) (init m fs k) with
+  | mk r s' => rw [hs] at h; exact h
+
+/-- Without it the statement is false: a 1-byte in-memory tensor named `other` held by initializer `s` is called `s`
+after a successful save (finding C20-D4, replayed on the real code). -/
+theorem tensor_names_full_refuted :
+    ¬ (∀ (m : Model) (dir name : String) (verbose : Bool) (fs : FS) (k : Option Nat),
+        (runSave { keepNames := false } m dir name verbose fs k).st.tn = m.tnames) := by
+  intro h
+  have := h { sig := [("s", false)], cv := [some 0], heap := [.mem [1] true], tnames := ["other"] } "" "m" false [] none
+  revert this
+  decide +kernel
+
 /-- The `const_value` pointers alone are restored unconditionally (the `finally` of `ir.save`), for every model,
 file system and fault plan. -/
-theorem const_values_restored (deep : Bool) (m : Model) (dir name : String) (verbose : Bool) (fs : FS) (k : Option Nat) :
-    ((runSave deep m dir name verbose fs k).model m).cv = m.cv := by
-  have hcv := save_cv deep m.sig m.tnames dir name verbose (init m fs k)
+theorem const_values_restored (cfg : Cfg) (m : Model) (dir name : String) (verbose : Bool) (fs : FS) (k : Option Nat) :
+    ((runSave cfg m dir name verbose fs k).model m).cv = m.cv := by
+  have hcv := save_cv cfg m.sig m.tnames dir name (verbose && cfg.tqdm) (init m fs k)
   unfold runSave Result.model
-  cases hs : save deep m.sig m.tnames dir name verbose (init m fs k) with
+  cases hs : save cfg m.sig m.tnames dir name (verbose && cfg.tqdm) (init m fs k) with
   | mk r s' => rw [hs] at hcv; exact hcv
 
 /-- The full statement (no hypothesis on where external tensors live) is false: a 300-byte initializer that is
-external in the destination data file is *invalidated* by a successful save (finding C20-D1, replayed on the real
+external in the destination data file is *invalidated* by a successful save of the function without the second guard (finding C20-D1, replayed on the real
 code: `ExternalTensor.valid()` is `False` afterwards). -/
 theorem model_unchanged_full_refuted :
-    ¬ (∀ (deep : Bool) (m : Model) (dir name : String) (verbose : Bool) (fs : FS) (k : Option Nat),
-        (runSave deep m dir name verbose fs k).model m = m) := by
+    ¬ (∀ (m : Model) (dir name : String) (verbose : Bool) (fs : FS) (k : Option Nat),
+        (runSave { refuse := false } m dir name verbose fs k).model m = m) := by
   intro h
-  have := h false { sig := [("d", false)], cv := [some 0], heap := [.ext "m.data" 0 300 true] }
+  have := h { sig := [("d", false)], cv := [some 0], heap := [.ext "m.data" 0 300 true] }
     "" "m" false [("m.data", .data (List.replicate 300 7))] none
   revert this
   decide +kernel
 
 /-- **Files the save does not own are never touched**, success or any fault: every path other than `dir/name.data` and
 `dir/name` holds what it held. -/
-theorem fs_frame (deep : Bool) (m : Model) (dir name : String) (verbose : Bool) (fs : FS) (k : Option Nat)
+theorem fs_frame (cfg : Cfg) (m : Model) (dir name : String) (verbose : Bool) (fs : FS) (k : Option Nat)
     (p : String) (h1 : p ≠ joinPath dir (name ++ ".data")) (h2 : p ≠ joinPath dir name) :
-    FS.get? (runSave deep m dir name verbose fs k).st.fs p = FS.get? fs p := by
-  have hinv := inv_save deep m.sig m.tnames dir name verbose
+    FS.get? (runSave cfg m dir name verbose fs k).st.fs p = FS.get? fs p := by
+  have hinv := inv_save cfg m.sig m.tnames dir name (verbose && cfg.tqdm)
     (stable_frame fs (joinPath dir (name ++ ".data")) (joinPath dir name)) (init m fs k)
     (fun _ _ _ => rfl)
   unfold runSave
-  cases hs : save deep m.sig m.tnames dir name verbose (init m fs k) with
+  cases hs : save cfg m.sig m.tnames dir name (verbose && cfg.tqdm) (init m fs k) with
   | mk r s' => rw [hs] at hinv; exact hinv p h1 h2
 
 /-- **Tensors stay backed by their original data**: an external tensor whose file is neither of the two destination
 files denotes, on the file system left by the call (successful or failed at any `k`), exactly the bytes it denoted
 before. (In-memory tensors carry their bytes; `model_unchanged_partial` says the objects are unchanged.) -/
-theorem backing_preserved (deep : Bool) (m : Model) (dir name : String) (verbose : Bool) (fs : FS) (k : Option Nat)
+theorem backing_preserved (cfg : Cfg) (m : Model) (dir name : String) (verbose : Bool) (fs : FS) (k : Option Nat)
     (f : String) (off len : Nat) (valid : Bool)
     (h1 : f ≠ joinPath dir (name ++ ".data")) (h2 : f ≠ joinPath dir name) :
-    bytesOf (runSave deep m dir name verbose fs k).st.fs (.ext f off len valid) = bytesOf fs (.ext f off len valid) := by
-  have := fs_frame deep m dir name verbose fs k f h1 h2
+    bytesOf (runSave cfg m dir name verbose fs k).st.fs (.ext f off len valid) = bytesOf fs (.ext f off len valid) := by
+  have := fs_frame cfg m dir name verbose fs k f h1 h2
   simp only [bytesOf, FS.read, this]
 
 /-- …whereas a small (≤ 256 bytes, so never invalidated) external tensor living in the destination data file silently
@@ -142,7 +208,7 @@ theorem backing_dest_refuted :
     let m : Model := { sig := [("s", false), ("b", false)], cv := [some 0, some 1],
                        heap := [.ext "m.data" 0 100 true, .mem (List.replicate 400 9) false] }
     let fs : FS := [("m.data", .data (List.replicate 100 7))]
-    let r := runSave false m "" "m" false fs none
+    let r := runSave { deep := false } m "" "m" false fs none
     r.res = .ok () ∧ r.model m = m ∧
     bytesOf fs (.ext "m.data" 0 100 true) = some (List.replicate 100 7) ∧
     bytesOf r.st.fs (.ext "m.data" 0 100 true) = some (List.replicate 100 9) := by
@@ -229,15 +295,15 @@ initializer order** (`zip3 sig bs`).  Covered by the proof: the guard, classific
 in-memory kept inline, small external loaded to memory, everything larger written out), the stable sort (as a membership-
 preserving rearrangement), offsets/alignment/padding, all three `tofile` paths incl. the chunked copy of external tensors,
 the new `ExternalTensor`s restored to input order, the pointer swap, `serialize`, the model-file write, and the `finally`. -/
-theorem roundtrip (deep : Bool) (m : Model) (dir name : String) (verbose : Bool) (fs : FS) (bs : List Bytes)
+theorem roundtrip (cfg : Cfg) (m : Model) (dir name : String) (verbose : Bool) (fs : FS) (bs : List Bytes)
     (hsig : m.sig.length = m.cv.length)
     (hinit : All2 (InitOK (joinPath dir (name ++ ".data")) fs m.heap) m.cv bs) :
-    (runSave deep m dir name verbose fs none).res = .ok () ∧
-    load (runSave deep m dir name verbose fs none).st.fs dir name = some (zip3 m.sig bs) := by
-  obtain ⟨s', h1, h2⟩ := save_load_ok deep m.sig m.tnames dir name verbose (init m fs none) bs rfl hsig hinit
+    (runSave cfg m dir name verbose fs none).res = .ok () ∧
+    load (runSave cfg m dir name verbose fs none).st.fs dir name = some (zip3 m.sig bs) := by
+  obtain ⟨s', h1, h2⟩ := save_load_ok cfg m.sig m.tnames dir name (verbose && cfg.tqdm) (init m fs none) bs rfl hsig hinit
   unfold runSave
   rw [h1]
-  exact ⟨rfl, h2⟩
+  exact ⟨rfl, h2 _ rfl rfl⟩
 
 example : ∃ (m : Model) (fs : FS) (bs : List Bytes), m.sig.length = m.cv.length ∧ bs.length = 3 ∧
     All2 (InitOK (joinPath "" ("m" ++ ".data")) fs m.heap) m.cv bs :=
@@ -246,20 +312,183 @@ example : ∃ (m : Model) (fs : FS) (bs : List Bytes), m.sig.length = m.cv.lengt
    [("w.bin", .data [9, 8, 7])], [[1, 2, 3], [8, 7], [1, 2, 3]], rfl, rfl,
    .cons ⟨0, _, rfl, rfl, rfl⟩ (.cons ⟨1, _, rfl, rfl, ⟨rfl, by decide, by decide⟩⟩ (.cons ⟨0, _, rfl, rfl, rfl⟩ .nil))⟩
 
+/-- **A fault is never swallowed** (both branches — with and without the progress bar — and every guard configuration):
+if the call planned to fail (`k = some n`) was reached, i.e. at least `n + 1` file-system calls were made, the function does
+not return normally.  Contrapositive form: a normal return means the planned fault was never reached, so the run *is* a
+fault-free run.  (The seeded `contextlib.suppress(OSError)` around `ir.save`, C20-6, breaks exactly this.) -/
+theorem fault_never_swallowed (cfg : Cfg) (m : Model) (dir name : String) (verbose : Bool) (fs : FS) (n : Nat)
+    (hok : (runSave cfg m dir name verbose fs (some n)).res = .ok ()) :
+    (runSave cfg m dir name verbose fs (some n)).st.calls ≤ n := by
+  have hns := ns_save cfg m.sig m.tnames dir name (verbose && cfg.tqdm) (init m fs (some n))
+    (by rintro ⟨n', _, h2⟩; exact absurd h2 (Nat.not_lt_zero _))
+  have hinv := inv_save cfg m.sig m.tnames dir name (verbose && cfg.tqdm)
+    (stable_untouched fs (some n) (joinPath dir (name ++ ".data")) (joinPath dir name)) (init m fs (some n))
+    ⟨rfl, rfl, Or.inl ⟨rfl, rfl⟩⟩
+  unfold runSave at hok ⊢
+  cases hs : save cfg m.sig m.tnames dir name (verbose && cfg.tqdm) (init m fs (some n)) with
+  | mk r s' =>
+    rw [hs] at hok hinv
+    simp only [] at hok ⊢
+    subst hok
+    have hnf := hns () s' hs
+    rcases Nat.lt_or_ge n s'.calls with h | h
+    · exact absurd ⟨n, hinv.1, h⟩ hnf
+    · exact h
+
+/-- Both sides occur: on this model call 3 exists, so planning a fault there makes the save fail; a fault planned at call
+100 is never reached and the save succeeds. -/
+example :
+    let m : Model := { sig := [("b", false)], cv := [some 0], heap := [.mem (List.replicate 300 9) true] }
+    (runSave {} m "" "m" true [] (some 3)).res = .error .osError ∧ (runSave {} m "" "m" true [] (some 3)).st.calls > 3 ∧
+    (runSave {} m "" "m" true [] (some 100)).res = .ok () ∧ (runSave {} m "" "m" true [] (some 100)).st.calls ≤ 100 := by
+  decide +kernel
+
+/-- **A run that returns normally is the fault-free run**: for every fault plan `k`, if the save returns normally then the
+run without any fault plan returns normally too and ends in the same state (files, tensor objects, `const_value`s, trace,
+call count, callback log, names) — only the plan itself differs. -/
+theorem ok_run_is_fault_free (cfg : Cfg) (m : Model) (dir name : String) (verbose : Bool) (fs : FS) (k : Option Nat)
+    (hok : (runSave cfg m dir name verbose fs k).res = .ok ()) :
+    (runSave cfg m dir name verbose fs none).res = .ok () ∧
+    (runSave cfg m dir name verbose fs none).st = { (runSave cfg m dir name verbose fs k).st with k := none } := by
+  have hsim := sim_save (ek := true) (ecb := false) cfg m.sig m.tnames dir name (verbose && cfg.tqdm) (verbose && cfg.tqdm)
+    (Or.inl ⟨rfl, rfl⟩)
+    (init m fs k)
+  unfold runSave at hok ⊢
+  cases hs : save cfg m.sig m.tnames dir name (verbose && cfg.tqdm) (init m fs k) with
+  | mk r s' =>
+    rw [hs] at hok
+    simp only [] at hok
+    subst hok
+    have h := hsim () s' hs
+    have hinit : er true false (init m fs k) = init m fs none := rfl
+    rw [hinit] at h
+    rw [h]
+    exact ⟨rfl, rfl⟩
+
+/-- **On success `load(path) = model`, for every fault plan** — the round trip of `roundtrip` holds whenever the call
+returns normally, whatever fault had been planned (it was then never reached, `fault_never_swallowed`). -/
+theorem roundtrip_on_success (cfg : Cfg) (m : Model) (dir name : String) (verbose : Bool) (fs : FS) (bs : List Bytes)
+    (k : Option Nat) (hsig : m.sig.length = m.cv.length)
+    (hinit : All2 (InitOK (joinPath dir (name ++ ".data")) fs m.heap) m.cv bs)
+    (hok : (runSave cfg m dir name verbose fs k).res = .ok ()) :
+    load (runSave cfg m dir name verbose fs k).st.fs dir name = some (zip3 m.sig bs) := by
+  obtain ⟨_, h2⟩ := ok_run_is_fault_free cfg m dir name verbose fs k hok
+  have hr := (roundtrip cfg m dir name verbose fs bs hsig hinit).2
+  rw [h2] at hr
+  exact hr
+
+/-- **The verbose/tqdm branch and the plain branch differ only in the progress callback**: for every fault plan, if the
+verbose save returns normally, so does the plain one, with the same files, tensor objects, `const_value`s, names, trace
+and call count — the end states are equal once the callback log is erased.  (The callback makes no file-system call.) -/
+theorem verbose_only_feeds_callback (cfg : Cfg) (m : Model) (dir name : String) (fs : FS) (k : Option Nat)
+    (hok : (runSave cfg m dir name true fs k).res = .ok ()) :
+    (runSave cfg m dir name false fs k).res = .ok () ∧
+    (runSave cfg m dir name false fs k).st = { (runSave cfg m dir name true fs k).st with cb := [], cbTotal := none } := by
+  have hsim := sim_save (ek := false) (ecb := true) cfg m.sig m.tnames dir name (true && cfg.tqdm) (false && cfg.tqdm)
+    (Or.inr ⟨rfl, Bool.false_and _⟩) (init m fs k)
+  unfold runSave at hok ⊢
+  cases hs : save cfg m.sig m.tnames dir name (true && cfg.tqdm) (init m fs k) with
+  | mk r s' =>
+    rw [hs] at hok
+    simp only [] at hok
+    subst hok
+    have h := hsim () s' hs
+    have hinit : er false true (init m fs k) = init m fs k := rfl
+    rw [hinit] at h
+    rw [h]
+    exact ⟨rfl, rfl⟩
+
+/-- Without `tqdm` installed the verbose call *is* the plain call (`use_tqdm = verbose and find_spec("tqdm") is not None`). -/
+theorem tqdm_absent_is_plain (cfg : Cfg) (h : cfg.tqdm = false) (m : Model) (dir name : String) (fs : FS) (k : Option Nat) :
+    runSave cfg m dir name true fs k = runSave cfg m dir name false fs k := by
+  unfold runSave
+  simp only [h, Bool.and_false]
+
+/-- The callback log is what distinguishes them. -/
+example :
+    let m : Model := { sig := [("b", false)], cv := [some 0], heap := [.mem (List.replicate 300 9) true], tnames := ["b"] }
+    (runSave {} m "" "m" true [] none).st.cb = [("b", 0)] ∧ (runSave {} m "" "m" false [] none).st.cb = [] := by
+  decide +kernel
+
+/-! ## Naming of the data file, and saves that follow one another -/
+
+/-- **`data_path` is injective in the destination name** (`data_path = f"{destination_path.name}.data"`, joined with the
+model's directory): two destinations in one directory share their data file only if they are the same destination.
+(The seeded `with_suffix('.onnx.data')` variants, C20-3/C20-5, break exactly this.) -/
+theorem data_path_injective (dir n1 n2 : String)
+    (h : joinPath dir (n1 ++ ".data") = joinPath dir (n2 ++ ".data")) : n1 = n2 :=
+  append_right_cancel _ _ _ (joinPath_inj dir _ _ h)
+
+/-- The data file is never the model file. -/
+theorem data_path_ne_model_path (dir name : String) : joinPath dir (name ++ ".data") ≠ joinPath dir name :=
+  joinPath_ne dir name
+
+/-- Two destinations of one directory use four pairwise distinct files unless one destination is literally named like
+the other's data file. -/
+theorem sibling_paths_disjoint (dir n1 n2 : String) (h12 : n1 ≠ n2) (h1 : n2 ≠ n1 ++ ".data") (h2 : n1 ≠ n2 ++ ".data") :
+    joinPath dir n1 ≠ joinPath dir n2 ∧ joinPath dir n1 ≠ joinPath dir (n2 ++ ".data") ∧
+    joinPath dir (n1 ++ ".data") ≠ joinPath dir n2 ∧ joinPath dir (n1 ++ ".data") ≠ joinPath dir (n2 ++ ".data") :=
+  ⟨fun h => h12 (joinPath_inj dir _ _ h), fun h => h2 (joinPath_inj dir _ _ h),
+   fun h => h1 (joinPath_inj dir _ _ h).symm, fun h => h12 (data_path_injective dir _ _ h)⟩
+
+/-- **Two-operation history: a later save never damages an earlier one.**  Save `m₁` (fault-free, hypotheses of
+`roundtrip`) under `dir₁/name₁`; then run *any* second save — any model, configuration, verbosity, **any fault plan** — under
+a destination whose two files differ from the first one's two files.  Loading `dir₁/name₁` afterwards still returns
+every initializer of `m₁` with its bytes in order.  (State carried between the calls is the file system only.) -/
+theorem later_save_keeps_roundtrip (cfg : Cfg) (m1 : Model) (dir1 name1 : String) (v1 : Bool) (fs : FS) (bs : List Bytes)
+    (hsig : m1.sig.length = m1.cv.length)
+    (hinit : All2 (InitOK (joinPath dir1 (name1 ++ ".data")) fs m1.heap) m1.cv bs)
+    (cfg2 : Cfg) (m2 : Model) (dir2 name2 : String) (v2 : Bool) (k2 : Option Nat)
+    (hmm : joinPath dir1 name1 ≠ joinPath dir2 name2)
+    (hmd : joinPath dir1 name1 ≠ joinPath dir2 (name2 ++ ".data"))
+    (hdm : joinPath dir1 (name1 ++ ".data") ≠ joinPath dir2 name2)
+    (hdd : joinPath dir1 (name1 ++ ".data") ≠ joinPath dir2 (name2 ++ ".data")) :
+    let fs1 := (runSave cfg m1 dir1 name1 v1 fs none).st.fs
+    load (runSave cfg2 m2 dir2 name2 v2 fs1 k2).st.fs dir1 name1 = some (zip3 m1.sig bs) := by
+  intro fs1
+  obtain ⟨s', h1, h2⟩ := save_load_ok cfg m1.sig m1.tnames dir1 name1 (v1 && cfg.tqdm) (init m1 fs none) bs rfl hsig hinit
+  have hfs1 : fs1 = s'.fs := by
+    show (runSave cfg m1 dir1 name1 v1 fs none).st.fs = _
+    unfold runSave
+    rw [h1]
+  apply h2
+  · rw [← hfs1]; exact fs_frame cfg2 m2 dir2 name2 v2 fs1 k2 _ hmd hmm
+  · rw [← hfs1]; exact fs_frame cfg2 m2 dir2 name2 v2 fs1 k2 _ hdd hdm
+
+/-- Same directory, by names: siblings `name₁ ≠ name₂` neither of which is named like the other's data file. -/
+theorem sibling_save_keeps_roundtrip (cfg : Cfg) (m1 : Model) (dir name1 : String) (v1 : Bool) (fs : FS) (bs : List Bytes)
+    (hsig : m1.sig.length = m1.cv.length)
+    (hinit : All2 (InitOK (joinPath dir (name1 ++ ".data")) fs m1.heap) m1.cv bs)
+    (cfg2 : Cfg) (m2 : Model) (name2 : String) (v2 : Bool) (k2 : Option Nat)
+    (h12 : name1 ≠ name2) (h1 : name2 ≠ name1 ++ ".data") (h2 : name1 ≠ name2 ++ ".data") :
+    load (runSave cfg2 m2 dir name2 v2 (runSave cfg m1 dir name1 v1 fs none).st.fs k2).st.fs dir name1
+      = some (zip3 m1.sig bs) := by
+  obtain ⟨a, b, c, d⟩ := sibling_paths_disjoint dir name1 name2 h12 h1 h2
+  exact later_save_keeps_roundtrip cfg m1 dir name1 v1 fs bs hsig hinit cfg2 m2 dir name2 v2 k2 a b c d
+
+/-- The side condition is needed: saving a second model under the name of the first one's data file destroys the first. -/
+example :
+    let m1 : Model := { sig := [("b", false)], cv := [some 0], heap := [.mem (List.replicate 300 9) false] }
+    let m2 : Model := { sig := [], cv := [], heap := [] }
+    let fs1 := (runSave {} m1 "" "m" false [] none).st.fs
+    load fs1 "" "m" = some [("b", false, List.replicate 300 9)] ∧
+    load (runSave {} m2 "" "m.data" false fs1 none).st.fs "" "m" = none := by
+  decide +kernel
+
 /-- **What a fault leaves on disk — the statement that can honestly be made.**  For every fault plan `k`: either the
 file system after the call *is* the file system before it, or the trace contains an open-for-write call `openW f` at an
 index `i` that is not the faulted call (`k ≠ some i`) — i.e. some `open(…, "wb")` really succeeded.  The first
 open-for-write of the sequence is the data file's (trace validated by the tie), so **a fault at or before the
 `open(<name>.data, "wb")` call leaves every file untouched**; after it, only the two destination files can differ
 (`fs_frame`) and nothing more is claimed about them (`fault_leaves_no_claim`). -/
-theorem fs_unchanged_unless_opened (deep : Bool) (m : Model) (dir name : String) (verbose : Bool) (fs : FS) (k : Option Nat) :
-    (runSave deep m dir name verbose fs k).st.fs = fs ∨
-    ∃ i f, (runSave deep m dir name verbose fs k).st.trace[i]? = some (Op.openW f) ∧ k ≠ some i := by
-  have hinv := inv_save deep m.sig m.tnames dir name verbose
+theorem fs_unchanged_unless_opened (cfg : Cfg) (m : Model) (dir name : String) (verbose : Bool) (fs : FS) (k : Option Nat) :
+    (runSave cfg m dir name verbose fs k).st.fs = fs ∨
+    ∃ i f, (runSave cfg m dir name verbose fs k).st.trace[i]? = some (Op.openW f) ∧ k ≠ some i := by
+  have hinv := inv_save cfg m.sig m.tnames dir name (verbose && cfg.tqdm)
     (stable_untouched fs k (joinPath dir (name ++ ".data")) (joinPath dir name)) (init m fs k)
     ⟨rfl, rfl, Or.inl ⟨rfl, rfl⟩⟩
   unfold runSave
-  cases hs : save deep m.sig m.tnames dir name verbose (init m fs k) with
+  cases hs : save cfg m.sig m.tnames dir name (verbose && cfg.tqdm) (init m fs k) with
   | mk r s' =>
     rw [hs] at hinv
     obtain ⟨_, _, h⟩ := hinv
@@ -269,11 +498,11 @@ theorem fs_unchanged_unless_opened (deep : Bool) (m : Model) (dir name : String)
 
 /-- Corollary in the "fault before the first write" form: if every open-for-write call in the trace is the faulted
 call itself (in particular if there is none), nothing on the file system changed. -/
-theorem fault_before_first_write_leaves_fs (deep : Bool) (m : Model) (dir name : String) (verbose : Bool) (fs : FS)
+theorem fault_before_first_write_leaves_fs (cfg : Cfg) (m : Model) (dir name : String) (verbose : Bool) (fs : FS)
     (k : Option Nat)
-    (h : ∀ i f, (runSave deep m dir name verbose fs k).st.trace[i]? = some (Op.openW f) → k = some i) :
-    (runSave deep m dir name verbose fs k).st.fs = fs := by
-  rcases fs_unchanged_unless_opened deep m dir name verbose fs k with h1 | ⟨i, f, h2, h3⟩
+    (h : ∀ i f, (runSave cfg m dir name verbose fs k).st.trace[i]? = some (Op.openW f) → k = some i) :
+    (runSave cfg m dir name verbose fs k).st.fs = fs := by
+  rcases fs_unchanged_unless_opened cfg m dir name verbose fs k with h1 | ⟨i, f, h2, h3⟩
   · exact h1
   · exact absurd (h i f h2) h3
 
@@ -282,7 +511,7 @@ alone; a fault at call 1 does not. -/
 example :
     let m : Model := { sig := [("b", false)], cv := [some 0], heap := [.mem (List.replicate 300 9) false] }
     let fs : FS := [("m.data", .data [1, 2, 3]), ("m", .data [4])]
-    (runSave false m "" "m" false fs (some 0)).st.fs = fs ∧ (runSave false m "" "m" false fs (some 1)).st.fs ≠ fs := by
+    (runSave { deep := false } m "" "m" false fs (some 0)).st.fs = fs ∧ (runSave { deep := false } m "" "m" false fs (some 1)).st.fs ≠ fs := by
   decide +kernel
 
 /-- A complete concrete round trip through the whole model (guard, classification with the 256-byte threshold, an
@@ -293,7 +522,7 @@ theorem roundtrip_instance :
     let m : Model := { sig := [("s", false), ("d", false), ("b", true)], cv := [some 0, some 1, some 2],
                        heap := [.mem [1, 2, 3] true, .ext "m.data" 0 300 true, .mem (List.replicate 260 9) false] }
     let fs : FS := [("m.data", .data (List.replicate 300 7))]
-    let r := runSave false m "" "m" true fs none
+    let r := runSave { deep := false } m "" "m" true fs none
     r.res = .ok () ∧
     load r.st.fs "" "m" = some [("s", false, [1, 2, 3]), ("d", false, List.replicate 300 7), ("b", true, List.replicate 260 9)] := by
   decide +kernel
